@@ -53,6 +53,9 @@ pub mod moves;
 #[cfg(feature = "selftest")]
 pub mod selftest;
 
+#[cfg(feature = "verif_hooks")]
+pub mod verif;
+
 use owlchess_base::bitboard_consts;
 use owlchess_base::geometry;
 
